@@ -150,6 +150,21 @@ class InjectForce(ConvergenceController):
             S.status.force_continue = SymBool(z3.Bool(f'fc_{key[0]}_{key[1]}'))
 
 
+class _NoPickle:
+    """stands for a solver handle (a sparse LU factorisation, a file, ...) that cannot be pickled"""
+
+    def __reduce__(self):
+        raise TypeError('cannot pickle this handle')
+
+
+class UnpicklableEq(testequation0d):
+    """the test equation holding an attribute that cannot be pickled: the controller then builds its steps one by one instead of copying the first"""
+
+    def __init__(self, **kw):
+        super().__init__(**kw)
+        self.__dict__['_handle'] = _NoPickle()
+
+
 def build(NP, NL, predict_type, mssdc_jac, all_to_done, nsweeps, inject=None, restol=1e-3, extra_hooks=(), dt=0.1):
     nn = [3, 2, 1][:NL] if NL > 1 else 2
     desc = dict(
@@ -162,7 +177,9 @@ def build(NP, NL, predict_type, mssdc_jac, all_to_done, nsweeps, inject=None, re
     )
     if NL > 1:
         desc['space_transfer_class'] = mesh_to_mesh
-    inject = {k: v for k, v in dict(inject or {}).items() if k != 'short'}
+    if inject and dict(inject).get('unpicklable'):
+        desc['problem_class'] = UnpicklableEq
+    inject = {k: v for k, v in dict(inject or {}).items() if k not in ('short', 'unpicklable')}
     if inject:
         desc['convergence_controllers'] = {InjectForce: dict(inject)}
     cp = {'logger_level': 50, 'dump_setup': False, 'hook_class': [Rec] + list(extra_hooks), 'predict_type': predict_type,
